@@ -11,6 +11,8 @@ CONSTANTS
   AdvSet = {}
   MaxTime = 0
   Grid = {0}
+  MaxInst = 2
 VIEW View
 INVARIANT C01_QuiescentOK
+CONSTRAINT InstBound
 CHECK_DEADLOCK FALSE
